@@ -7,6 +7,12 @@ COMMON_NOTE = ("Trusted: Coq 8.16.1 kernel (vm_compute, no native_compute); no a
                "extraction via ExtrOcamlBasic only + coq/Extract/driver.ml, cross-checked by vm_compute on a sample every run; "
                "harness/translate.py (T1) and the per-property runner harness/cNN.py (T2 canonicalisation). ")
 CLAIMED = {
+ "C14": dict(
+   text="PARTIAL. Coq theorems over ALL registration sequences (lookup returns the class of the last registration mentioning the suffix; an unknown suffix is NotImplementedError with an empty constructor trace) and over ALL event traces of a with-block (any reads, any raise point, any exception, explicit closes): after __exit__ the handle set for the workbook's path is empty, a caller-supplied file object is closed, close never raises and is idempotent - for every class outside the Numbers finding, which is proved to leak until a garbage collection. "
+        "What the OS and the third-party readers do with descriptors enters through a per-class table in the model, checked by an exhaustive grid (8 classes x every raise point x path/file object) counting /proc/self/fd entries, not proved.",
+   note="Registrations, the later-wins rule and the shape of each close() are regenerated from the source. pathlib suffix extraction and the per-class descriptor table are tied by correspondence only. Known finding K-numbers-fd.",
+   technique="Coq proof by induction over registration lists / event traces (handle-set invariant) + regenerated parameters + exhaustive-grid differential correspondence on /proc/self/fd",
+   design="5/C14"),
  "C05": dict(
    text="Coq theorems over ALL record lists (no bound on count or length beyond the header limits): reading back the F/FB, V and VB images written by the specification yields exactly the records, the header-preserving iterators yield payloads with correct length words, and the stream is exhausted; for RECFM N, for EVERY buffer size B>0 and every announced-length sequence with 1<=len<=B, the buffer automaton delivers each record at the head of its buffer, in order, and ends empty (invariant buf = firstn B (buf ++ rest)); instantiated with the buffer size and refill expression read from the source. "
         "The original refill (B - used) is refuted by a vm_compute witness. Correspondence on boundary lengths straddling 32768 and random blockings.",
